@@ -186,6 +186,9 @@ def verifyOp (toks : List String) : Option String :=
     match offset.toNat?, claim.toNat?, refs.mapM ref? with
     | some off, some claim, some refs => some (toString (equalityVerdict off claim refs))
     | _, _, _ => none
+  | ["ve.scalar", bytes] =>
+    -- `decrypt_scalar` after the byte search: the big-endian value of the 32 recovered bytes, reduced mod r
+    (bytesOf? bytes).map fun b => frHex (Fr.ofNat (beVal b))
   | ["eq.check", rs] =>
     (listOf? frOf? rs).map fun rs => toString (allEqual rs)
   | ["vf.disclosed", req, labels, types, rep, inner] =>
